@@ -6,15 +6,15 @@ Proof. unfold fr_register. destruct (alookup (fr_callees fr) n); reflexivity. Qe
 
 (** for every order of the parallel tasks *)
 Lemma request_on_stack_is_cyclic_o :
-  forall p pa tord bord f stk b rv pd prev fr n s,
+  forall p pa tord bord pord f stk b rv pd prev fr n s,
     nmem n stk = true -> kind_eqb (nkind b) KExternal = false ->
     (kind_eqb (nkind b) KProjection && negb (is_fw_or_proj (nkind n)))%bool = false ->
     exists fr',
-      query_for_o p pa tord bord (S f) stk (CQuery b rv pd prev) (Some fr) n s =
+      query_for_o p pa tord bord pord (S f) stk (CQuery b rv pd prev) (Some fr) n s =
         Ok (QCyclic, Some fr', upto stk n, s) /\
       fr_scc fr' = (fr_scc fr || nmem b (upto stk n))%bool.
 Proof.
-  intros p pa tord bord f stk b rv pd prev fr n s Hn Hk Hp.
+  intros p pa tord bord pord f stk b rv pd prev fr n s Hn Hk Hp.
   cbn [query_for_o].
   destruct rv; destruct pd; try (destruct (alookup prev n) as [seen|]; [destruct (get_info s n) as [ci|]; [destruct (nset_eqb (i_tfc ci) seen)|]|]);
     rewrite ?Hk, ?Hp, Hn; cbn [frame_mark_if];
